@@ -4,7 +4,8 @@
    within its timeout p and that handlers take no virtual time. *)
 From Coq Require Import List ZArith Bool.
 From Model Require Import Conn Selector.
-From Proofs Require Import TimerFacts TimerTie SelectorFacts.
+From Proofs Require Import TimerFacts TimerTie SelectorFacts TimerGridTie.
+From Gen Require Import GenTimers.
 Import ListNotations.
 Open Scope Z_scope.
 
@@ -102,3 +103,22 @@ Proof. exact close_timeout_under_honest_selector. Qed.
 Theorem C15_arrival_seen_at_once : forall fuel p now a rest, 0 <= p -> now <= a ->
   (Z.to_nat ((a - now) / Z.max p 1) + 1 <= fuel)%nat -> 0 < p -> In a (wakes fuel p now (a :: rest)).
 Proof. exact arrival_seen_at_once. Qed.
+
+(* ---------- the running code ---------- *)
+(* (regenerated, TimerGridTie.v) what the RUNNING code decides -- _check_poll, _check_auto_ping, _check_ping_timeout and
+   _check_close_timeout executed one by one on grids of tick values around every comparison (due / not yet due, rate 0 and None,
+   timeouts 0 and None, no Close sent), and _regular executed as a whole on the session clock (what it yields, in which order,
+   whether it forces the disconnect) -- is what poll_step, ping_step, unresponsive and close_overdue say, composed in the order
+   Poll, Ping, Unresponsive, close deadline: the sequence theorems above are about the functions the code computes *)
+Theorem C15_running_code_decides_like_the_model :
+  forallb Proofs.TimerGridTie.poll_row_ok Gen.GenTimers.impl_poll_rows = true /\
+  forallb Proofs.TimerGridTie.ping_row_ok Gen.GenTimers.impl_ping_rows = true /\
+  forallb Proofs.TimerGridTie.unresponsive_row_ok Gen.GenTimers.impl_unresponsive_rows = true /\
+  forallb Proofs.TimerGridTie.close_row_ok Gen.GenTimers.impl_close_rows = true /\
+  forallb Proofs.TimerGridTie.regular_row_ok Gen.GenTimers.impl_regular_rows = true.
+Proof.
+  exact (conj Proofs.TimerGridTie.impl_poll_is_model (conj Proofs.TimerGridTie.impl_ping_is_model
+        (conj Proofs.TimerGridTie.impl_unresponsive_is_model (conj Proofs.TimerGridTie.impl_close_is_model
+        Proofs.TimerGridTie.impl_regular_is_model)))).
+Qed.
+Print Assumptions C15_running_code_decides_like_the_model.
